@@ -397,3 +397,55 @@ Section ResidChecked.
     else if bad_window w xs then Panicked AssertFail   (* the window assertion looks at SELF, not at the zip *)
     else idx_run body w (fun s a => snd (resid_cb_tr k (mp_eff mp w 0) zs s a)) csum0 zs.
 End ResidChecked.
+
+(* =====================================================================================================
+   Audit YB (additive).  A WHOLE call of each driver of view.rs as the code runs it: the checks in the
+   order of the code (a panic carries no access: nothing is read or written before it), then the trace.
+   The kinds are those of Run/RunC10.v `run_trace` (which is `enc_dcall` of this function, lemma
+   run_trace_is_driver_call there).                                                                     *)
+Inductive dcall := DPanic (k : panic_kind) | DTrace (t : list acc).
+Inductive dkind :=
+| KApplyTo | KApply2To | KIdxTo | KIdx2To | KCustomTo        (* two-phase index bodies (caller buffer, Vec / ndarray fast path) *)
+| KCustomLazy | KCustomWrite | KCustom2Lazy | KCustom2Write   (* lazy slice forms: collected / written by write_trust_iter *)
+| KIterBody.                                                  (* iterator bodies, collected: no unchecked access, no uset *)
+Definition dkind_writes (k : dkind) : bool :=
+  match k with KCustomLazy | KCustom2Lazy | KIterBody => false | _ => true end.
+
+Definition driver_call (cb : option nat -> nat -> list acc) (k : dkind) (w len len2 : nat) : dcall :=
+  let guard (t : list acc) := if (w =? 0) && negb (len =? 0) then DPanic AssertFail else DTrace t in
+  let guard2 (t : list acc) := if len2 <? len then DPanic AssertFail else guard t in
+  match k with
+  | KApplyTo => guard (trace_apply_to w len)
+  | KApply2To => guard2 (trace_apply2_to w len)
+  | KIdxTo => guard (trace_idx_to cb w len)
+  | KIdx2To => guard2 (trace_idx2_to cb w len)
+  | KCustomTo => guard (trace_custom_to w len)
+  | KCustomLazy => if w =? 0 then DPanic Underflow else DTrace (trace_custom_iter w len)
+  | KCustomWrite => if w =? 0 then DPanic Underflow else DTrace (trace_custom_iter w len ++ trace_write len)
+  | KCustom2Lazy => if len2 <? len then DPanic AssertFail else if w =? 0 then DPanic Underflow
+                    else DTrace (trace_custom2 w len)
+  | KCustom2Write => if len2 <? len then DPanic AssertFail else if w =? 0 then DPanic Underflow
+                     else DTrace (trace_custom2 w len ++ trace_write len)
+  | KIterBody => guard []
+  end.
+
+(* rolling_custom(.., Some(out)) of the DEFAULT trait method with a caller buffer of ANY length `lo`
+   (view.rs 338-341: `iter.write(&mut out).unwrap()`; uninit.rs write_trust_iter): the lazy iterator is built first
+   (`window - 1`), then  lo = 0: Ok, nothing pulled;  lo = len: item i is pulled (slice) and stored at i;
+   len = 1: the single item is pulled once and stored in EVERY slot of the buffer;  otherwise Err -> unwrap panics,
+   nothing pulled, nothing stored.  The writes are bounded by `lo`, the length of the BUFFER.                  *)
+Definition custom_write_call (w len lo : nat) : dcall :=
+  if w =? 0 then DPanic Underflow
+  else if lo =? 0 then DTrace []
+  else if lo =? len then DTrace (trace_custom_iter w len ++ trace_write len)
+  else if len =? 1 then DTrace (trace_custom_iter w 1 ++ trace_write lo)
+  else DPanic UnwrapNone.
+
+(* the upper size_hint a trusted-length collector reads from the lazy bodies before the first next()
+   (std: Zip = min, Chain = sum, RepeatN = n, Range = its length; rolling_custom_iter: .to_trust(self.len())) *)
+Definition hint_apply (w len : nat) : nat := Nat.min (w - 1 + len) len.
+Definition hint_apply2 (w len len2 : nat) : nat := Nat.min (w - 1 + Nat.min len len2) (Nat.min len len2).
+Definition hint_idx (w len : nat) : nat := Nat.min len (w - 1 + len).
+Definition hint_idx2 (w len len2 : nat) : nat := Nat.min (Nat.min len len2) (w - 1 + len).
+Definition hint_custom (w len : nat) : nat := len.
+Definition hint_custom2 (w len : nat) : nat := Nat.min len (w - 1 + len).
